@@ -29,7 +29,9 @@ func (f *Failure) Error() string { return fmt.Sprintf("op %d: %s", f.OpIndex, f.
 // KV pair list sorted by the comparer.
 type KV struct{ K, V []byte }
 
-// Oracle is the plain map driven by the same operations.
+// Oracle is the plain map driven by the same operations.  It is keyed by the stored spelling of the user key and
+// holds at most one pair per equivalence class of the comparer (cmpx.go: Find/Put/Del/Apply); for the injective
+// comparers that is the plain Go map keyed by the key bytes.
 type Oracle map[string][]byte
 
 func (o Oracle) Clone() Oracle {
@@ -243,8 +245,8 @@ func short(b []byte) string {
 }
 
 // checkGet compares one Get/Has with an oracle view through the given getter.
-func checkGet(view Oracle, k []byte, get func([]byte) ([]byte, error), has func([]byte) (bool, error), what string) *Failure {
-	want, ok := view[string(k)]
+func checkGet(cmp comparer.Comparer, view Oracle, k []byte, get func([]byte) ([]byte, error), has func([]byte) (bool, error), what string) *Failure {
+	_, want, ok := view.Find(cmp, k)
 	v, err := get(k)
 	if ok {
 		if err != nil {
@@ -327,14 +329,14 @@ func rng(op *Op) *util.Range {
 // live snapshot with its frozen copy.
 func (r *Runner) CheckAll(scan bool) *Failure {
 	for _, k := range r.Prog.Pool {
-		if f := checkGet(r.Model, k, func(k []byte) ([]byte, error) { return r.DB.Get(k, nil) },
+		if f := checkGet(r.Cmp, r.Model, k, func(k []byte) ([]byte, error) { return r.DB.Get(k, nil) },
 			func(k []byte) (bool, error) { return r.DB.Has(k, nil) }, "DB"); f != nil {
 			return f
 		}
 	}
 	for i := 0; i < 4; i++ {
 		k := []byte(fmt.Sprintf("\x02absent-%d", i))
-		if f := checkGet(r.Model, k, func(k []byte) ([]byte, error) { return r.DB.Get(k, nil) },
+		if f := checkGet(r.Cmp, r.Model, k, func(k []byte) ([]byte, error) { return r.DB.Get(k, nil) },
 			func(k []byte) (bool, error) { return r.DB.Has(k, nil) }, "DB"); f != nil {
 			return f
 		}
@@ -346,7 +348,7 @@ func (r *Runner) CheckAll(scan bool) *Failure {
 	}
 	for si, s := range r.Snaps {
 		for _, k := range r.Prog.Pool {
-			if f := checkGet(s.frozen, k, func(k []byte) ([]byte, error) { return s.snap.Get(k, nil) },
+			if f := checkGet(r.Cmp, s.frozen, k, func(k []byte) ([]byte, error) { return s.snap.Get(k, nil) },
 				func(k []byte) (bool, error) { return s.snap.Has(k, nil) }, fmt.Sprintf("snapshot#%d(seq %d)", si, s.seq)); f != nil {
 				return f
 			}
@@ -361,15 +363,7 @@ func (r *Runner) CheckAll(scan bool) *Failure {
 }
 
 // applyRecs applies batch records to an oracle view.
-func applyRecs(m Oracle, recs []Rec) {
-	for _, rec := range recs {
-		if rec.Del {
-			delete(m, string(rec.K))
-		} else {
-			m[string(rec.K)] = append([]byte{}, rec.V...)
-		}
-	}
-}
+func applyRecs(cmp comparer.Comparer, m Oracle, recs []Rec) { m.Apply(cmp, recs) }
 
 func mkBatch(recs []Rec) *leveldb.Batch {
 	b := new(leveldb.Batch)
@@ -400,7 +394,7 @@ func (r *Runner) Step(i int, op *Op) (f *Failure) {
 		if err := r.DB.Put(op.K, op.V, wo); err != nil {
 			return &Failure{What: fmt.Sprintf("Put error %v", err)}
 		}
-		r.Model[string(op.K)] = append([]byte{}, op.V...)
+		r.Model.Put(r.Cmp, op.K, op.V)
 		r.nWrites++
 	case OpDelete:
 		if r.Txn != nil {
@@ -409,7 +403,7 @@ func (r *Runner) Step(i int, op *Op) (f *Failure) {
 		if err := r.DB.Delete(op.K, wo); err != nil {
 			return &Failure{What: fmt.Sprintf("Delete error %v", err)}
 		}
-		delete(r.Model, string(op.K))
+		r.Model.Del(r.Cmp, op.K)
 		r.nWrites++
 	case OpBatch:
 		if r.Txn != nil {
@@ -418,15 +412,12 @@ func (r *Runner) Step(i int, op *Op) (f *Failure) {
 		if err := r.DB.Write(mkBatch(op.Recs), wo); err != nil {
 			return &Failure{What: fmt.Sprintf("Write error %v", err)}
 		}
-		applyRecs(r.Model, op.Recs)
+		applyRecs(r.Cmp, r.Model, op.Recs)
 		r.nWrites++
 	case OpGet:
-		return checkGet(r.Model, op.K, func(k []byte) ([]byte, error) { return r.DB.Get(k, nil) }, nil, "DB")
+		return checkGet(r.Cmp, r.Model, op.K, func(k []byte) ([]byte, error) { return r.DB.Get(k, nil) }, nil, "DB")
 	case OpHas:
-		want := false
-		if _, ok := r.Model[string(op.K)]; ok {
-			want = true
-		}
+		_, _, want := r.Model.Find(r.Cmp, op.K)
 		h, err := r.DB.Has(op.K, nil)
 		if err != nil || h != want {
 			return &Failure{What: fmt.Sprintf("Has(%x) = %v err=%v, oracle says %v", op.K, h, err, want)}
@@ -449,7 +440,7 @@ func (r *Runner) Step(i int, op *Op) (f *Failure) {
 		s := r.Snaps[si]
 		what := fmt.Sprintf("snapshot#%d(seq %d)", si, s.seq)
 		for _, k := range r.Prog.Pool {
-			if f := checkGet(s.frozen, k, func(k []byte) ([]byte, error) { return s.snap.Get(k, nil) },
+			if f := checkGet(r.Cmp, s.frozen, k, func(k []byte) ([]byte, error) { return s.snap.Get(k, nil) },
 				func(k []byte) (bool, error) { return s.snap.Has(k, nil) }, what); f != nil {
 				return f
 			}
@@ -522,7 +513,7 @@ func (r *Runner) Step(i int, op *Op) (f *Failure) {
 		if err := r.Txn.Put(op.K, op.V, nil); err != nil {
 			return &Failure{What: fmt.Sprintf("Transaction.Put error %v", err)}
 		}
-		r.TxnMod[string(op.K)] = append([]byte{}, op.V...)
+		r.TxnMod.Put(r.Cmp, op.K, op.V)
 	case OpTxnDel:
 		if r.Txn == nil {
 			return nil
@@ -530,7 +521,7 @@ func (r *Runner) Step(i int, op *Op) (f *Failure) {
 		if err := r.Txn.Delete(op.K, nil); err != nil {
 			return &Failure{What: fmt.Sprintf("Transaction.Delete error %v", err)}
 		}
-		delete(r.TxnMod, string(op.K))
+		r.TxnMod.Del(r.Cmp, op.K)
 	case OpTxnBatch:
 		if r.Txn == nil {
 			return nil
@@ -538,12 +529,12 @@ func (r *Runner) Step(i int, op *Op) (f *Failure) {
 		if err := r.Txn.Write(mkBatch(op.Recs), nil); err != nil {
 			return &Failure{What: fmt.Sprintf("Transaction.Write error %v", err)}
 		}
-		applyRecs(r.TxnMod, op.Recs)
+		applyRecs(r.Cmp, r.TxnMod, op.Recs)
 	case OpTxnGet:
 		if r.Txn == nil {
 			return nil
 		}
-		return checkGet(r.TxnMod, op.K, func(k []byte) ([]byte, error) { return r.Txn.Get(k, nil) },
+		return checkGet(r.Cmp, r.TxnMod, op.K, func(k []byte) ([]byte, error) { return r.Txn.Get(k, nil) },
 			func(k []byte) (bool, error) { return r.Txn.Has(k, nil) }, "transaction")
 	case OpTxnScan:
 		if r.Txn == nil {
